@@ -1,5 +1,7 @@
 """C07 -- built-in pools are linearizable queues (structural part)."""
-from abtverif import cfg, locks, paths, seq
+import re
+
+from abtverif import canon, cfg, locks, paths, seq, tables
 from abtverif.build import AnalysisBroken
 from . import common
 
@@ -18,6 +20,7 @@ DECLINED = ["linearizability and FIFO order of concurrent histories as such",
 ASSUMPTIONS = ["user-defined pools are out of scope (C14)",
                "pthread_mutex/pthread_cond behave as specified by POSIX"]
 RULES_DOC = dict(common.SHARED_DOC)
+RULES_DOC["X4"] = common.X4_DOC
 RULES_DOC.update({
     "R1": "queue mutators run under data::mutex (or in a PRIV-only function); every exit has the lock released",
     "R2": "thread_queue.h: is_empty / is_in_pool release-stores are coherent with num_threads on every path",
@@ -49,10 +52,64 @@ def access_values(P):
     return out
 
 
+def _slot_assignments(P, F, param_values):
+    """common.slot_assignments, but a slot may also be filled from a local function pointer: the function
+    such a local holds on the current path is part of the state (no dependence on how the local is called,
+    or on whether there is one)."""
+    out = {}
+
+    class TS(cfg.Typestate):
+        def __init__(self):
+            self.init = frozenset()
+            self.results = []
+
+        def event(self, F, nid, st, ctx):
+            nd = F.nodes[nid]
+            if nd.get("k") == "decl":
+                for v in nd["vars"]:
+                    if "init" in v:
+                        st = self._assign(F, st, ("local", v["n"]), v["init"], False)
+                return st
+            if nd.get("k") == "bin" and nd.get("asg") and nd["op"] == "=":
+                ln = F.nodes[F.strip(nd["lh"])]
+                if ln.get("k") == "ref" and ln.get("dk") == "var":
+                    return self._assign(F, st, ("local", ln["n"]), nd["rh"], False)
+                fo = F.field_of(nd["lh"])
+                if fo:
+                    return self._assign(F, st, fo, nd["rh"], "(*)" in (ln.get("t") or ""))
+            return st
+
+        def _assign(self, F, st, key, rh, null_ok):
+            rn = F.nodes[F.strip(rh)]
+            val = False
+            if rn.get("k") == "ref" and rn.get("dk") == "func":
+                val = rn["n"]
+            elif rn.get("k") == "ref" and rn.get("dk") == "var" and any(x[0] == ("local", rn["n"]) for x in st):
+                val = [x[1] for x in st if x[0] == ("local", rn["n"])][0]
+            elif null_ok and rn.get("cv") == 0:
+                val = None
+            if val is False:
+                if key[0] == "local":       # the local now holds something that is not a known function
+                    return frozenset(x for x in st if x[0] != key)
+                return st
+            return frozenset(x for x in st if x[0] != key) | {(key, val)}
+
+        def exit(self, F, kind, nid, st, ctx):
+            rv = ctx.value(F.nodes[nid]["e"]) if nid is not None and "e" in F.nodes[nid] else None
+            self.results.append((kind, rv, frozenset(x for x in st if x[0][0] != "local")))
+
+    for pname, values in param_values.items():
+        for vname, v in values.items():
+            ts = TS()
+            cfg.simulate(F, ts, entry_consts={pname: v})
+            out[vname] = ts.results
+    return out
+
+
 def installed_slots(P, file):
     """{access name: {slot: fn}} on success paths of the file's definition function."""
     D = P.fn(DEF_FN[file], file)
-    res = common.slot_assignments(P, D, {D.params[0]["n"]: access_values(P)})
+    res = _slot_assignments(P, D, {D.params[0]["n"]: access_values(P)})
     out = {}
     for acc, results in res.items():
         succ = [st for kind, rv, st in results if kind == "ret" and rv == 0]
@@ -91,7 +148,7 @@ def rule_R1_R5(P, rep):
             if F.file != file:
                 continue
             muts = F.calls(MUTATORS)
-            ts = locks.run_locks(P, F)
+            ts = _run_locks(P, F)
             # balance on every exit
             unbalanced = [(k, nid, held) for k, nid, held, rv in ts.exits if k == "ret" and held]
             if muts or any(F.nodes[i].get("fn") in ("ABTD_spinlock_acquire", "pthread_mutex_lock") for _b, i in F.calls()):
@@ -121,10 +178,95 @@ def rule_R1_R5(P, rep):
 
 
 def _is_pool_mutex(F, key):
+    # keys are rooted access paths (see _LockTS): the lock is the `mutex` member of the pool's data
     return key.endswith("->mutex") or key.endswith(".mutex")
 
 
+class _LockTS(locks.LockTS):
+    """locks.LockTS whose lock identities do not depend on local names: a lock argument is keyed by its
+    rooted access path (canon.rooted: locals replaced by what they were assigned from), so
+    `&p_data->mutex`, `&p_d->mutex` and a pointer temporary that holds it are one and the same lock."""
+
+    @staticmethod
+    def _key(F, arg):
+        return canon.rooted(F, arg, 6)
+
+    def event(self, F, nid, st, ctx):
+        held, asm = st
+        nd = F.nodes[nid]
+        fn = nd.get("fn") if nd.get("k") == "call" else None
+        if fn in tables.LOCK_ACQUIRE:
+            self.at.setdefault(nid, set()).add(held)
+            key = self._key(F, nd["a"][tables.LOCK_ACQUIRE[fn]])
+            if key in held:
+                self.errors.append((nid, "lock %s acquired while already held" % key))
+            return (held | {key}, asm)
+        if fn in tables.LOCK_RELEASE:
+            self.at.setdefault(nid, set()).add(held)
+            key = self._key(F, nd["a"][tables.LOCK_RELEASE[fn]])
+            if key not in held:
+                self.errors.append((nid, "lock %s released while not held" % key))
+            return (held - {key}, asm)
+        if fn in tables.LOCK_RELEASE_TRANSFER:
+            self.at.setdefault(nid, set()).add(held)
+            key = self._key(F, nd["a"][tables.LOCK_RELEASE_TRANSFER[fn]])
+            if key not in held:
+                self.errors.append((nid, "%s called without holding %s" % (fn, key)))
+            return (held - {key}, asm)
+        if fn in tables.LOCK_COND_ACQUIRE:
+            self.at.setdefault(nid, set()).add(held)
+            key = self._key(F, nd["a"][tables.LOCK_COND_ACQUIRE[fn]])
+            var = self._result_var(F, nid)
+            asm2 = frozenset(a for a in asm if a[0] != nid)
+            return {(held | {key}, asm2 | {(nid, True, var)}),
+                    (held - {key}, asm2 | {(nid, False, var)})}
+        return locks.LockTS.event(self, F, nid, st, ctx)
+
+
+def _run_locks(P, F):
+    ts = _LockTS(P)
+    cfg.simulate(F, ts)
+    return ts
+
+
 # --------------------------------------------------------------------------- R2
+
+NUM = "thread_queue_t::num_threads"
+
+
+class _Canon:
+    """Marks a token selector as canonical for the path engine: the text of the returned expression is then
+    rendered by canon.expr (no local names) instead of the raw C text."""
+    canon = True
+    want_loads = False
+
+    def __init__(self, fn):
+        self.fn = fn
+
+    def select(self, F, nid, ctx):
+        return self.fn(F, nid, ctx)
+
+
+def _count_filter(label, truth, feasible):
+    """Narrow the set of possible values of num_threads ({0, 1, 2} with 2 standing for 'two or more') by a
+    canonical test on it (`N`, `N == c`, `N < c`, `c < N` with c <= 2); other labels leave it unchanged."""
+    if label == NUM:
+        pred = lambda v: v != 0
+    else:
+        m = re.match(r"^%s (==|<) (\d+)$" % re.escape(NUM), label)
+        m2 = re.match(r"^(\d+) < %s$" % re.escape(NUM), label)
+        if m and int(m.group(2)) <= 2:
+            c = int(m.group(2))
+            if m.group(1) == "==" and c == 2:
+                return feasible
+            pred = (lambda v: v == c) if m.group(1) == "==" else (lambda v: v < c)
+        elif m2 and int(m2.group(1)) <= 1:
+            c = int(m2.group(1))
+            pred = lambda v: v > c
+        else:
+            return feasible
+    return set(v for v in feasible if pred(v) == truth)
+
 
 def rule_R2(P, rep):
     def select(F, nid, ctx):
@@ -134,7 +276,17 @@ def rule_R2(P, rep):
             fo = F.field_of(nd["lh"])
             if fo and fo[1] == "num_threads":
                 v = ctx.value(nd["rh"])
-                return ("num", nd["op"], v)
+                op = nd["op"]
+                # `n += 1`, `n = n + 1` are spellings of `n++` (likewise for --)
+                if op in ("+=", "-=") and v == 1:
+                    return ("num", "++" if op == "+=" else "--", None)
+                if op == "=" and v is None:
+                    t = canon.expr(F, nd["rh"], 4)
+                    if t in (NUM + " + 1", "1 + " + NUM):
+                        return ("num", "++", None)
+                    if t == NUM + " - 1":
+                        return ("num", "--", None)
+                return ("num", op, v)
         if k == "un" and nd["op"] in ("post++", "post--", "pre++", "pre--"):
             fo = F.field_of(nd["e"])
             if fo and fo[1] == "num_threads":
@@ -146,12 +298,16 @@ def rule_R2(P, rep):
         return None
 
     def edge_select(F, bid, key, truth, ctx):
-        if key and "num_threads" in key:
-            return ("if", key, truth)
-        if ctx.cond_node is not None:
-            c = seq.atomic_cmp(F, ctx.cond_node, "ABTI_thread::is_in_pool")
-            if c:
-                return ("inpool?", c, bool(ctx.cond_val))
+        if ctx.cond_node is None:
+            return None
+        # canonical label of the test: independent of local names, temporaries and polarity
+        label, flip = canon.cond(F, ctx.cond_node)
+        val = bool(ctx.cond_val) != flip
+        if NUM in label:
+            return ("if", label, val)
+        m = re.match(r"^ABTD_atomic_(\w+?)_load_\w+\(&ABTI_thread::is_in_pool\) == (\d+)$", label)
+        if m:
+            return ("inpool?", (m.group(1), "==", int(m.group(2))), val)
         return None
 
     expect = {"thread_queue_push_head": "push", "thread_queue_push_tail": "push",
@@ -159,14 +315,18 @@ def rule_R2(P, rep):
               "thread_queue_remove": "remove"}
     for name, kind in sorted(expect.items()):
         F = P.fn(name, TQ)
-        ps = paths.enumerate_paths(F, select, edge_select)
+        ps = paths.enumerate_paths(F, _Canon(select).select, edge_select)
         rets = [p for p in ps if p[1] == "ret"]
         rep.need(rets, "%s has no returning path" % name)
         for toks, k, rv, rtxt in rets:
             nums = [t for t in toks if t[0] == "num"]
             st_empty = [t for t in toks if t[0] == "store" and t[1] == "is_empty"]
             st_inpool = [t for t in toks if t[0] == "store" and t[1] == "is_in_pool"]
-            ifs = {t[1]: t[2] for t in toks if t[0] == "if"}
+            # what the tests made before the update say about the count
+            feasible = {0, 1, 2}
+            for t in (toks[:toks.index(nums[0])] if nums else toks):
+                if t[0] == "if":
+                    feasible = _count_filter(t[1], t[2], feasible)
             why = []
             failing = (kind == "pop" and rv == 0 and not nums) or (kind == "remove" and rv not in (0, None) and not nums)
             if failing:
@@ -181,12 +341,12 @@ def rule_R2(P, rep):
                         if op == "=" and v == 1:
                             if not (len(st_empty) == 1 and st_empty[0][3] == 0 and "release" in st_empty[0][2]):
                                 why.append("count 0 -> 1 without release-store is_empty = 0")
-                            if ifs.get("p_queue->num_threads") is not False and ifs.get("p_queue->num_threads == 0") is not True:
+                            if feasible != {0}:
                                 why.append("count set to 1 without having tested num_threads == 0")
                         elif op == "++":
                             if st_empty:
                                 why.append("is_empty written although the count stays non-zero")
-                            if ifs.get("p_queue->num_threads") is not True and ifs.get("p_queue->num_threads == 0") is not False:
+                            if 0 in feasible:
                                 why.append("count incremented on a path where num_threads may be 0")
                         else:
                             why.append("unexpected count update %s %s" % (op, v))
@@ -194,12 +354,12 @@ def rule_R2(P, rep):
                         if op == "=" and v == 0:
                             if not (len(st_empty) == 1 and st_empty[0][3] == 1 and "release" in st_empty[0][2]):
                                 why.append("count 1 -> 0 without release-store is_empty = 1")
-                            if ifs.get("p_queue->num_threads == 1") is not True:
+                            if feasible != {1}:
                                 why.append("count set to 0 without having tested num_threads == 1")
                         elif op == "--":
                             if st_empty:
                                 why.append("is_empty written although the count stays non-zero")
-                            if ifs.get("p_queue->num_threads == 1") is not False:
+                            if 1 in feasible:
                                 why.append("count decremented on a path where num_threads may be 1")
                         else:
                             why.append("unexpected count update %s %s" % (op, v))
@@ -247,9 +407,10 @@ def rule_R3(P, rep):
         def edge(self, F, bid, key, truth, st, ctx):
             if ctx.cond_node is None:
                 return st
-            cn = F.nodes[ctx.cond_node]
-            if cn.get("k") == "call" and cn.get("fn") == "ABTD_atomic_acquire_load_int" and \
-                    F.field_of(cn["a"][0]) == ("thread_queue_t", "is_empty") and ctx.cond_val:
+            # canonical label: the same whether the load sits in the condition or in a temporary,
+            # and whether the test is written `x`, `x != 0` or `!(x == 0)`
+            label, flip = canon.cond(F, ctx.cond_node)
+            if label == "ABTD_atomic_acquire_load_int(&thread_queue_t::is_empty)" and (bool(ctx.cond_val) != flip):
                 return "empty-seen"
             return "other"
 
@@ -275,22 +436,27 @@ def rule_R3(P, rep):
 # --------------------------------------------------------------------------- R4
 
 def _controlling_context_facts(P, F, names):
-    """{call node: set of frozenset((key, truth)) of `context`-dependent facts on the paths reaching it}"""
-    class TS(cfg.Typestate):
-        init = 0
+    """{call node: set of frozenset((label, truth)) of the tests of the pool-context argument decided on the
+    paths reaching it}.  Labels are canonical (`ctx & <mask>`, true = flag set): they do not depend on the
+    name of a temporary that holds the flag, on the polarity of the test, or on the name of the parameter."""
+    ctxs = [p["n"] for p in F.params if p["t"] == "ABT_pool_context"]
 
-        def __init__(self):
-            self.seen = {}
+    def conds(t):
+        m = re.match(r"^(\w+) & (\d+)$", t)
+        if m and m.group(1) in ctxs:
+            return "ctx & %s" % m.group(2)
+        return None
 
-        def event(self, F, nid, st, ctx):
-            nd = F.nodes[nid]
-            if nd.get("k") == "call" and nd.get("fn") in names:
-                fs = frozenset((k, v) for k, v in ctx.facts.items() if "context" in k)
-                self.seen.setdefault(nid, set()).add(fs)
-            return st
-    ts = TS()
-    cfg.simulate(F, ts)
-    return ts.seen
+    sel = seq.Sel(calls=set(names), conds=conds if ctxs else None, locks=False, canon=True)
+    seen = {}
+    for toks, kind, rv, rtxt in seq.sequences(F, sel, max_len=120):
+        facts = {}
+        for t in toks:
+            if t[0] == "if":
+                facts[t[1]] = t[2]
+            elif t[0] == "call":
+                seen.setdefault(t[-1], set()).add(frozenset(facts.items()))
+    return seen
 
 
 def rule_R4(P, rep):
@@ -339,7 +505,7 @@ def rule_R4(P, rep):
         rep.need(len(sigs[op]) >= 4, "randws: only %d %s variants" % (len(sigs[op]), op))
         ref_name = sorted(sigs[op])[0]
         for name, sig in sorted(sigs[op].items()):
-            # each variant: exactly two sites, head and tail, guarded by complementary facts on `context & MASK`
+            # each variant: exactly two sites, head and tail, guarded by complementary facts on `ctx & MASK`
             ends_seen = sorted(e for e, fs in sig)
             guards = {e: fs for e, fs in sig}
             ok = ends_seen == ["head", "tail"] and all(len(fs) == 1 for fs in guards.values())
@@ -390,9 +556,11 @@ def rule_R6(P, rep):
 
     def edge_select(F, bid, key, truth, ctx):
         if ctx.cond_node is not None:
-            cn = F.nodes[ctx.cond_node]
-            if cn.get("k") == "call" and cn.get("fn") == "thread_queue_is_empty":
-                return "empty" if ctx.cond_val else "nonempty"
+            # canonical label of the test (a temporary holding the answer, `== ABT_TRUE`, `!x` ... are the same)
+            label, flip = canon.cond(F, ctx.cond_node)
+            m = re.match(r"^thread_queue_is_empty\(&\w+::queue\)( == 1)?$", label)
+            if m:
+                return "empty" if (bool(ctx.cond_val) != flip) else "nonempty"
         return None
 
     for name in ("pool_push", "pool_push_many"):
@@ -427,6 +595,11 @@ def rule_R6(P, rep):
                     why.append("timed wait outside the mutex")
                 if "empty" not in toks[:i] or toks.index("empty") < toks.index("lock"):
                     why.append("timed wait without an emptiness test under the mutex")
+                else:
+                    # the answer that was tested must itself have been obtained under the mutex
+                    asked = [j for j, t in enumerate(toks[:toks.index("empty")]) if t == "is_empty?"]
+                    if not asked or asked[-1] < toks.index("lock"):
+                        why.append("the emptiness answer tested under the mutex was obtained before locking")
                 if toks.count("timedwait") > 1:
                     why.append("more than one timed wait (unbounded)")
                 if toks.index("pop") < i:
@@ -437,6 +610,8 @@ def rule_R6(P, rep):
 
 
 def run(P, rep, tier):
+    if tier == "thorough":
+        common.rule_X4(P, rep)
     common.run_shared(P, rep)
     rule_R1_R5(P, rep)
     rule_R2(P, rep)
